@@ -249,23 +249,78 @@ func checkC03(c *km.Ctx) {
 			r.AnchorLost("R-C03-2", "NotBefore/NotAfter stores in "+lf.name)
 			continue
 		}
+		// the instants may be computed by a small helper that returns them together: follow the field of its
+		// result to the value the helper stored, and the helper's duration parameter to the argument it was given
+		type inst struct {
+			val  ssa.Value
+			bind func(ssa.Value) ssa.Value // callee parameter -> argument at the call
+		}
+		resolveInst := func(at ssa.Instruction, v ssa.Value) []inst {
+			ident := func(x ssa.Value) ssa.Value { return km.Unwrap(x) }
+			base, _, isField := km.FieldOfLoad(km.Unwrap(v))
+			if !isField {
+				return []inst{{km.Unwrap(v), ident}}
+			}
+			b := cellOrigin(base)
+			call, _ := callRes(b)
+			if call == nil {
+				return []inst{{km.Unwrap(v), ident}}
+			}
+			g := km.StaticCallee(call.Common())
+			args := km.CallArgs(call.Common())
+			bind := func(x ssa.Value) ssa.Value {
+				x = km.Unwrap(x)
+				if p, ok := x.(*ssa.Parameter); ok && g != nil {
+					for i, q := range g.Params {
+						if q == p && i < len(args) {
+							return km.Unwrap(args[i])
+						}
+					}
+				}
+				return x
+			}
+			var out []inst
+			for _, k := range c.F.At(at) {
+				for _, lf := range s.Leaves(k, fn, nil, v, nil, 2) {
+					out = append(out, inst{km.Unwrap(lf.Val), bind})
+				}
+			}
+			if len(out) == 0 {
+				return []inst{{km.Unwrap(v), ident}}
+			}
+			return out
+		}
 		for _, st := range nb {
-			r.Add("R-C03-2", km.FuncName(fn), "NotBefore", posOf(c, st), "time.Now() (or earlier by a constant)", km.ValStr(st.Val), isTimeNowOrEarlier(st.Val))
+			okAll := true
+			for _, in := range resolveInst(st, st.Val) {
+				if !isTimeNowOrEarlier(in.val) {
+					okAll = false
+				}
+			}
+			r.Add("R-C03-2", km.FuncName(fn), "NotBefore", posOf(c, st), "time.Now() (or earlier by a constant)", km.ValStr(st.Val), okAll)
 		}
 		for _, st := range na {
-			add, ok := isCall(st.Val, "(time.Time).Add")
-			good := false
+			good := true
 			desc := km.ValStr(st.Val)
-			if ok {
+			for _, in := range resolveInst(st, st.Val) {
+				add, ok := isCall(in.val, "(time.Time).Add")
+				if !ok {
+					good = false
+					continue
+				}
 				baseOK := isTimeNowOrEarlier(add.Common().Args[0])
-				d := km.Unwrap(add.Common().Args[1])
+				d := in.bind(add.Common().Args[1])
 				switch {
 				case lf.capConst == 0:
-					good = baseOK && dparam != nil && d == ssa.Value(dparam)
+					if !(baseOK && dparam != nil && d == ssa.Value(dparam)) {
+						good = false
+					}
 					desc = sprintf("base-now=%v D=%s", baseOK, km.ValStr(d))
 				default:
 					k, isC := km.ConstInt(d)
-					good = baseOK && isC && k > 0 && k <= lf.capConst
+					if !(baseOK && isC && k > 0 && k <= lf.capConst) {
+						good = false
+					}
 					desc = sprintf("base-now=%v D=%d ns", baseOK, k)
 				}
 			}
